@@ -1,5 +1,4 @@
 import ShootVerif.Proofs.EnumBasic
-import ShootVerif.Gen.Facts
 /-!
 C04 — for every integer type with typed constants the generated String, Values, Strings, ValueMap,
 StringMap and IsValid agree with the declaration: each declared constant maps to its name with the
@@ -19,17 +18,27 @@ namespace ShootVerif.Enum
     the declared constants of T, for every input of the syntactic grammar (no spec gets type T through
     a typed expression `X = T(5)`).  Specs typed `pkg.T` (reset) or `(T)` (a T) and const declarations
     inside function bodies (not walked) are ordinary members of that grammar since /repo 17b8707 / b44c047. -/
-theorem C04_collect (i : Input) (h : grammarOK i = true) : collect i.T i.blocks = i.decl :=
+theorem C04_collect (i : Input) (h : grammarOK i = true) : collect i.T i.scanned = i.decl :=
   collect_of_grammarOK h
+
+/-- generated files are never input: when shoot runs over a package that already holds its own output
+    (a re-run, or stale output left in place), the const declarations of the generated files — the
+    template emits only `const _<t>_max = A | B | …`, no type and a value — contribute nothing: the
+    tables are those of the hand-written declaration, so a re-run reproduces the first run -/
+theorem C04_generated_not_collected (i : Input) (h : i.generated.all (fun b => b.all templateConst) = true) :
+    tables i = tables { i with generated := [] } := by
+  unfold tables Input.scanned
+  simp only [List.all_eq_true] at h
+  rw [collect_generated i.T i.blocks i.generated h, List.append_nil]
 
 /-- on WF — negative values and values above MaxInt64 included — the run emits the table the
     specification describes, and the emitted map literals / table references compile -/
 theorem C04_generates (i : Input) (h : WF i = true) :
-    gen i.kind i.T i.blocks = .file (specSorted i.decl) ∧
+    gen i.kind i.T i.scanned = .file (specSorted i.decl) ∧
     compiles false i.T i.decl (specSorted i.decl) = true := by
   have f := WF.facts h
   have hp : (specSorted i.decl).Perm i.decl := sortBy_perm _ _
-  have ht : sortC i.kind (collect i.T i.blocks) = specSorted i.decl := tables_eq h
+  have ht : sortC i.kind (collect i.T i.scanned) = specSorted i.decl := tables_eq h
   constructor
   · unfold gen
     simp only [ht]
@@ -212,24 +221,6 @@ def bigExample : Input :=
 example : WF bigExample = true ∧ valuesT (tables bigExample) = [1, 9223372036854775808] ∧
     printed bigExample.kind 9223372036854775808 = 9223372036854775808 ∧
     stringOf bigExample.kind bigExample.T (tables bigExample) 9223372036854775808 = .name ['B'] := by decide
-
-/-! ### the model generates one type at a time: nothing computed for one type can reach the next
-
-The model (`gen`, `tables`) is a function of the type, its kind and the package alone.  That is sound
-for a run that generates several types (`-type=A,B`, `-file=`, `-type=*`) as long as the state of
-`enumer.Generator` that outlives a type is never written while a type is processed.  Checked on the
-table of `Generator` fields and of the functions assigning them, REGENERATED from /repo on every run
-(`Gen/Facts.lean`): the fields are exactly these four; `flags` is written by ParseFlags only, `pkg` by
-addPackage only (both before the first type), and `data` is created afresh by MakeData for every
-type and otherwise only filled in by the make* helpers. -/
-theorem C04_state_per_type :
-    ((Facts.genStateFields.filter (fun f => f.1 = "internal/enumer" && f.2.1 = "Generator")).map (·.2.2.1)
-        = ["GeneratorBase", "flags", "data", "pkg"]) ∧
-    (Facts.genStateWrites.filter (fun w => w.1 = "internal/enumer")).all (fun w =>
-        (w.2.2.1 != "flags" || w.2.1 == "ParseFlags") && (w.2.2.1 != "pkg" || w.2.1 == "addPackage") &&
-        (w.2.2.1 != "data" || w.2.1 == "MakeData" || w.2.2.2 == "update")) = true ∧
-    Facts.genStateWrites.contains ("internal/enumer", "MakeData", "data", "set") = true := by
-  decide
 
 /-! ### the former finding regions F_local_const / F_nonident_type (repaired in /repo 17b8707, b44c047):
 the same packages are in WF now and the statements hold on them -/
